@@ -77,7 +77,7 @@ func TestContract(t *testing.T) {
 	}
 	vm := gen.ValidationMatrix()
 	strip(vm)
-	sess, built := rt.Prepare(t, "c14", rt.Options{Profile: profile(), N: n, Seed: seed, AvoidIfOpen: avoid, Tweak: strip, Extra: []*m.Design{gen.ParamMatrix(), gen.ViewMatrix(), gen.MapParamsMatrix(), vm}})
+	sess, built := rt.Prepare(t, "c14", rt.Options{Profile: profile(), N: n, Seed: seed, AvoidIfOpen: avoid, Tweak: strip, Extra: []*m.Design{gen.ParamMatrix(), gen.ViewMatrix(), gen.MapParamsMatrix(), vm, gen.InheritMatrix()}})
 	defer sess.Close()
 	defer rt.CloseAll(built)
 	if len(built) == 0 {
